@@ -478,6 +478,11 @@ def unit_axis_rule(repo: Repo, prop: str, rule_id: str, floor: int = 1) -> RuleR
         if not (prop_fn.is_property and prop_fn.cls is not None and prop_fn.name in ("normal", "axis")):
             continue
         rets = [n.value for n in ast.walk(prop_fn.node) if isinstance(n, ast.Return) and n.value is not None]
+        if len(rets) == 1 and isinstance(rets[0], ast.Name):
+            # returned through a local
+            defs = [n.value for n in ast.walk(prop_fn.node) if isinstance(n, ast.Assign) and len(n.targets) == 1 and isinstance(n.targets[0], ast.Name) and n.targets[0].id == rets[0].id]
+            if len(defs) == 1:
+                rets = defs
         if not (len(rets) == 1 and isinstance(rets[0], ast.BinOp) and isinstance(rets[0].op, ast.Sub)):
             continue
         raw = all(isinstance(x, ast.Attribute) and x.attr in ("position", "components") for x in (rets[0].left, rets[0].right)) or not any(isinstance(c, ast.Call) and (attr_chain(c.func) or "").split(".")[-1] == "unit_vector" for c in ast.walk(rets[0]))
